@@ -270,8 +270,14 @@ pub fn try_cleanup_corrupt_lock_file(data_dir: impl AsRef<Path>) -> Result<bool,
         return Ok(false);
     }
 
-    if authority_meta_path(&data_dir).exists() {
-        return Ok(false);
+    // A meta file means an authority got as far as serving: leave its lock alone, unless that
+    // authority is known to be gone (a stale meta file is replaced by the next authority).
+    let meta_path = authority_meta_path(&data_dir);
+    if meta_path.exists() {
+        match read_authority_meta(&data_dir) {
+            Ok(Some(meta)) if matches!(pid_liveness(meta.pid), PidLiveness::Dead) => {}
+            _ => return Ok(false),
+        }
     }
 
     // Only a lock that is still unreadable is corrupt: another contender may have cleaned it up
